@@ -168,7 +168,10 @@ def _impl(tier, seed, search):
     # ---- separate scalars == packed vector ------------------------------------------------------------------------
     x0, y0, z0 = (float(v) for v in g.normal(size=3))
     patterns = [(x0, y0, z0), (x0, 0.0, 0.0), (0.0, y0, 0.0), (0.0, 0.0, z0), (x0, y0, 0.0), (x0, 0.0, z0), (0.0, y0, z0), (0.0, 0.0, 0.0),
-                (1, 0, 0), (0, 2, 0), (3, 0, 1), (-2, 0.0, 0), (1.0, 1.0, 1.0)]
+                (1, 0, 0), (0, 2, 0), (3, 0, 1), (-2, 0.0, 0), (1.0, 1.0, 1.0),
+                # NumPy scalar types are scalars too (a loop variable of np.arange, a float32 reading …)
+                (np.int64(2), np.int64(0), np.int64(-1)), (np.int32(1), np.int32(2), np.int32(3)), (np.float32(0.5), np.float32(-1.5), np.float32(2.0)),
+                (np.float64(x0), np.float64(y0), np.float64(z0)), (np.int64(1), 0.5, np.float32(0.25))]
     for (x, y, z) in patterns:
         PAIRS = {
             'transl': (lambda: b.transl(x, y, z), lambda: b.transl([x, y, z])), 'transl2': (lambda: b.transl2(x, y), lambda: b.transl2([x, y])),
@@ -215,6 +218,14 @@ def _impl(tier, seed, search):
         close(f'SO3.rpy[{o}]', lambda: SO3(Rr).rpy(unit='deg', order=o), lambda: SO3(Rr).rpy(order=o) * 180 / math.pi, 1e-9, 180.0)
         close(f'UQ.rpy[{o}]', lambda: UnitQuaternion(SO3(Rr)).rpy(unit='deg', order=o), lambda: UnitQuaternion(SO3(Rr)).rpy(order=o) * 180 / math.pi, 1e-9, 180.0)
     close('eul2r', lambda: b.eul2r(a3, unit='deg'), lambda: b.eul2r(a3r)); close('eul2tr', lambda: b.eul2tr(a3, unit='deg'), lambda: b.eul2tr(a3r))
+    # twist exponentials with an explicit angle: scalar and sequence theta, both classes
+    from spatialmath import Twist3 as Tw3_, Twist2 as Tw2_
+    Su3 = Tw3_.Revolute(g.normal(size=3), g.normal(size=3)); Su2 = Tw2_.Revolute(g.normal(size=2))
+    for nm_, S_ in (('Twist3', Su3), ('Twist2', Su2)):
+        close(f'{nm_}.exp(scalar)', lambda: S_.exp(a, units='deg').A, lambda: S_.exp(ar).A)
+        for fn_, mk_ in (('list', list), ('tuple', tuple), ('array', np.array)):
+            close(f'{nm_}.exp({fn_})', lambda: np.array([np.asarray(x_, float) for x_ in S_.exp(mk_([a, a / 2, -a / 3]), units='deg').data]),
+                  lambda: np.array([np.asarray(x_, float) for x_ in S_.exp(mk_([ar, ar / 2, -ar / 3])).data]))
     Re = b.eul2r(a3r)
     close('tr2eul', lambda: b.tr2eul(Re, unit='deg'), lambda: b.tr2eul(Re) * 180 / math.pi, 1e-9, 180.0)
     close('SO3.Eul', lambda: SO3.Eul(a3, unit='deg'), lambda: SO3.Eul(a3r)); close('SE3.Eul', lambda: SE3.Eul(a3, unit='deg'), lambda: SE3.Eul(a3r)); close('UQ.Eul', lambda: UnitQuaternion.Eul(a3, unit='deg').vec, lambda: UnitQuaternion.Eul(a3r).vec)
@@ -292,6 +303,8 @@ def _impl(tier, seed, search):
         'angvec2r(unit=grad)': lambda: b.angvec2r(a, vv, unit='grad'), 'xyt2tr(unit=grad)': lambda: b.xyt2tr([x, y, a], 'grad'), 'SO3.Rx(unit=grad)': lambda: SO3.Rx(a, 'grad'), 'SE3.Ry(unit=grad)': lambda: SE3.Ry(a, 'grad'),
         'UQ.Rz(unit=grad)': lambda: UnitQuaternion.Rz(a, 'grad'), 'SO2(unit=grad)': lambda: SO2(a, unit='grad'), 'SE2(unit=grad)': lambda: SE2(x, y, a, unit='grad'), 'SO3.RPY(unit=grad)': lambda: SO3.RPY(a3, unit='grad'),
         'SO3.Eul(unit=grad)': lambda: SO3.Eul(a3, unit='grad'), 'SO3.AngVec(unit=grad)': lambda: SO3.AngVec(a, vv, unit='grad'), 'UQ.AngVec(unit=grad)': lambda: UnitQuaternion.AngVec(a, vv, unit='grad'),
+        'Twist3.exp(list, units=degrees)': lambda: Tw3_.Revolute([0, 0, 1], [1, 0, 0]).exp([10.0, 20.0], units='degrees'), 'Twist3.exp(scalar, units=grad)': lambda: Tw3_.Revolute([0, 0, 1], [1, 0, 0]).exp(10.0, units='grad'),
+        'Twist2.exp(list, units=grad)': lambda: Tw2_.Revolute([1, 2]).exp([10.0, 20.0], units='grad'),
         'getunit(unit=grad)': lambda: b.getunit(a, 'grad'), 'angvec2r(zero axis, unit=grad)': lambda: b.angvec2r(a, [0, 0, 0], unit='grad'),
         'angvec2tr(zero axis, unit=grad)': lambda: b.angvec2tr(a, [0, 0, 0], unit='grad'), 'SO3.AngVec(zero axis, unit=grad)': lambda: SO3.AngVec(a, [0, 0, 0], unit='grad'),
         'SO3.rpy(multi, order=xzy)': lambda: Xm.rpy(order='xzy'),
